@@ -8,6 +8,7 @@ import UberjobModel.Model.PlanDrv
 import UberjobModel.Model.SmallDrv
 import UberjobModel.Model.CacheDrv
 import UberjobModel.Model.ProgressDrv
+import UberjobModel.Model.PhysDrv
 /-!
   Line-protocol driver for the executable models (one request per line, one reply per line).
   Used by the Python harness for the correspondence checks (T2/T3).
@@ -118,6 +119,7 @@ def step (c : Ctx) (line : String) : Ctx × String :=
   | "c02" :: _ => (c, Uberjob.Plan.drv line)
   | "tb" :: _ | "retry" :: _ => (c, Uberjob.Small.drv line)
   | "progress" :: _ => (c, Uberjob.Progress.drv line)
+  | "phys" :: _ => (c, Uberjob.Phys.drv line)
   | "cplan" :: _ => let (d, r) := Cache.drv c.cache line; ({ c with cache := d }, r)
   | "cop" :: _ => let (d, r) := Cache.drv c.cache line; ({ c with cache := d }, r)
   | "cstale" :: _ => (c, (Cache.drv c.cache line).2)
